@@ -25,8 +25,11 @@
 (*   blocks/heights/<h>.ods   HARD LINK to blocks/<hash>.ods, or a         *)
 (*                       SYMLINK ../<emptyhash>.ods for the empty block    *)
 (*                                                                         *)
-(* Abstraction of a file's content: its size class.  Files are written     *)
-(* append-only by one writer, so the size determines the content:          *)
+(* Abstraction of a file's content: how much of the complete file's bytes  *)
+(* is on the disk (a prefix: files are written append-only by one writer). *)
+(* This is CONTENT, not size: the driver compares the bytes of the real    *)
+(* file with the image of the complete file.  In the code as it is the     *)
+(* size equals the written prefix; with Prealloc it does not.              *)
 (*   "absent"  no directory entry                                          *)
 (*   "empty"   created, header not (completely) written                    *)
 (*   "hdr"     65-byte header on disk, everything else still in the        *)
@@ -54,6 +57,10 @@ CONSTANTS
     OpKinds,           \* subset of {"PutODSQ4","PutODS","RemoveODSQ4","RemoveQ4"}
     ValidateQ4OnOpen,  \* TRUE: the lazy open of the Q4 file refuses a file of the wrong size
                        \*       (tree with the fix); FALSE: any existing file is served (defect #10)
+    Prealloc,          \* TRUE: the writers reserve the file's final size before writing (Truncate /
+                       \*       fallocate): a half-written file has the SIZE of a complete one, so every
+                       \*       size-based detection of partial files is blind (seeded change C07-2).
+                       \*       FALSE: the code as it is (files grow with every flushed buffer).
     EmitCases          \* TRUE: print one CASE line per crash point (for the B2 driver)
 
 ASSUME DataHeights \cap EmptyHeights = {}
@@ -131,7 +138,7 @@ OdsVia(h) == CASE lnk[h] = "same"     -> ods[h]
 
 \* Would the lazy open of blocks/<hash>.q4 (ods_q4.go tryLoadQ4: by PATH, once, on the first
 \* read of a lower-half axis) bind the accessor to the file that is there?
-Q4Bound(f) == IF ValidateQ4OnOpen THEN q4[f] = "full" ELSE q4[f] # "absent"
+Q4Bound(f) == IF ValidateQ4OnOpen /\ ~Prealloc THEN q4[f] = "full" ELSE q4[f] # "absent"
 
 \* Result of GetByHeight(h) on a freshly opened store over the current disk (NewStore regenerates
 \* the empty block's files, so a symlink always resolves to a complete file), judged against the
@@ -274,7 +281,10 @@ Q4Close ==                                          \* marker: q4.closed
 
 WritersDone == opc \in {"closed", "exists"} /\ qpc \in {"closed", "exists", "na"}
 AnyExists   == opc = "exists" \/ qpc = "exists"
-SizesValid  == ods[tf] = "full" /\ (WritesQ4 => q4[tf] = "full")
+\* what the SIZE validation sees: with Prealloc every file whose header is readable has the expected size
+SizesValid  == IF Prealloc
+                 THEN ods[tf] \notin {"absent", "empty"} /\ (WritesQ4 => q4[tf] # "absent")
+                 ELSE ods[tf] = "full" /\ (WritesQ4 => q4[tf] = "full")
 
 Join ==
     /\ mpc = "create" /\ WritersDone
